@@ -1,6 +1,7 @@
 import Mochi.Model.Broker
 import Mochi.Props.C08
 import Mochi.Lemmas.BrokerSurvive
+import Mochi.Lemmas.BrokerResend
 import Mochi.Props.C09Demo
 /-!
 # C09 — Unacknowledged QoS 1/2 messages survive reconnection until acknowledged
@@ -21,8 +22,9 @@ in-flight record under packet identifier `k` that is the PUBLISH (type 3) with t
 `Ends s cid k op` (decidable) — the ops that may legitimately end the exchange in state `s`.
 Theorems (below): `C09_record_survives_step` (every op kind, schedule ops included — no `SchedOK` needed for the step
 itself; `SyncInv` is only used for `release` of a CONNECT parked in the authentication hook),
-`C09_record_survives_run` / `C09_record_survives_history` (op lists), `C09_resend_publish_dup` / `C09_resend_pubrel`
-(what a resumption resends).  Non-vacuity and the F09 counterexample by `decide`: `Mochi/Props/C09Demo.lean`.
+`C09_record_survives_run` / `C09_record_survives_history` (op lists), `C09_resume_resends` (what a resumption
+resends: PUBLISH with DUP for a PUBLISH record; PUBREL — and, in the resend loop, no PUBLISH with that identifier — for a
+PUBREL record).  Non-vacuity and the F09 counterexample by `decide`: `Mochi/Props/C09Demo.lean`.
 -/
 namespace Mochi.Broker
 open Mochi.Topics
@@ -158,6 +160,56 @@ theorem C09_record_survives_history (caps : Caps) (pre ops : List Op) (cid : Str
   obtain ⟨f1, f2⟩ := OpsFresh_app hf
   obtain ⟨o1, o2⟩ := OpsSchedOK_app hok
   exact C09_record_survives_run _ ops cid k p (WF_run caps pre f1) (SyncInv_run caps pre f1 o1) f2 o2 h hne
+
+/-! ### what a resumption resends -/
+
+/-- **C09, the resend.**  A `connect` op for `cid` that is admitted and does not discard the session (no Clean Start,
+    the old session not an MQTT 3 clean one), in a state where the session holds the record `m` of exchange `k`:
+    * `m` a PUBLISH (type 3): its payload is `p`, and the op's outputs contain, on the NEW connection, that PUBLISH with
+      the DUP flag set (same packet identifier, same payload — `{ m with dup := true }`);
+    * `m` a PUBREL (type 6): the op's outputs contain `PUBREL k` on the new connection; and the outputs of
+      `attachClient` are `pre ++ resent`, `resent` being the outputs of `ResendInflightMessages`, which contain NO
+      PUBLISH with packet identifier `k` (`pre` — DISCONNECT to the taken-over connection, CONNACK, what the taken-over
+      handler's will publishes — is not analysed here: a will delivered to the resuming session gets a fresh packet
+      identifier). -/
+theorem C09_resume_resends (s : Server) (conn : Nat) (k' : Connect) (cid : Str) (k : Nat) (p : Str) (hw : WF s)
+    (hf : OpFresh s (.connect conn k')) (h : Holds s cid k p) (hid : k'.id = cid)
+    (hadm : refuseCode s k' (parseConnect s conn k') = none) (hne : ¬ EndsTakeover s cid k') :
+    ∃ i m, assocGet s.clients cid = some i ∧ flGet (getObj s i) k = some m ∧
+      (m.type = 3 → m.payload = p ∧
+        Out.wrote conn (.publish k'.ver { m with dup := true } (m.expiry > 0 || m.msgExpiry > 0)) ∈
+          (step s (.connect conn k')).2) ∧
+      (m.type = 6 →
+        Out.wrote conn (.ack k'.ver 6 k m.reasonCode) ∈ (step s (.connect conn k')).2 ∧
+        ∃ pre s3, (connect s conn k').2 = pre ++ (admitC s3 s.objs.length k' true).2 ∧
+          ∀ c ver m' me, Out.wrote c (.publish ver m' me) ∈ (admitC s3 s.objs.length k' true).2 → m'.id ≠ k) := by
+  obtain ⟨i, hi, m, hm, hok⟩ := h
+  have hE : ¬ (k'.clean = true ∨ ((getObj s i).clean && decide ((getObj s i).ver < 5)) = true) := by
+    intro x
+    apply hne
+    refine ⟨hid, ?_⟩
+    rcases x with x | x
+    · exact Or.inl x
+    · right
+      rw [hi]
+      exact x
+  have hcl : k'.clean = false := Bool.eq_false_iff.mpr (fun e => hE (Or.inl e))
+  have h3 : ((getObj s i).clean && decide ((getObj s i).ver < 5)) = false :=
+    Bool.eq_false_iff.mpr (fun e => hE (Or.inr e))
+  obtain ⟨pre, s3, hsplit, hm3, hwf3, ho, hin, hpg, hconn, hver⟩ :=
+    connect_resend_split k s conn k' i m hw hf (by rw [hid]; exact hi) hm hadm hcl h3
+  have R := admitC_resends s3 s.objs.length k' k m hm3 ho hin hpg
+  rw [hconn, hver] at R
+  refine ⟨i, m, hi, hm, fun ht => ⟨?_, ?_⟩, fun ht => ⟨?_, pre, s3, hsplit, ?_⟩⟩
+  · have : recOk m p = true := hok
+    simp [recOk, ht] at this
+    exact this.2
+  · exact step_connect_out_sub _ _ _ _ (by rw [hsplit]; exact List.mem_append_right _ (R.1 ht))
+  · have h6 : m.type ≠ 3 := by rw [ht]; decide
+    have := R.2 h6
+    rw [ht] at this
+    exact step_connect_out_sub _ _ _ _ (by rw [hsplit]; exact List.mem_append_right _ this)
+  · exact admitC_no_publish s3 s.objs.length k' k m hwf3 hm3 (by rw [ht]; decide)
 
 /-- the history of `Mochi/Props/C09Demo.lean` is an instance: from the delivery (op 3) to just before the PUBCOMP
     (op 9) no op ends the exchange -/
